@@ -56,30 +56,33 @@ def decode_slot(arr):
 
 
 def mem(detector, inc=1.0, lst=None, dct=None):
-    """A model that keeps memory on the detector (`_memory`: a counter, a history list and a persistence-like
-    array) and mutates its own mutable arguments (appends to `lst`, counts in `dct`).  The value it writes
-    into `pixel` depends on all of that, so any leak of state between runs or into the caller's objects is
-    visible in the result.  Step 0 of a fresh standalone exposure is the reference."""
+    """A model that keeps memory on the detector (`_memory`: a counter, a history list and a trapped-charge-like
+    array updated *in place*; the trapped charge of `detector.persistence` if present, also in place) and mutates
+    its own mutable arguments (appends to `lst`, counts in `dct`).  The values it writes into `pixel` and `signal`
+    depend on all of that, so any leak of state between runs or into the caller's objects is visible in the result."""
     name = detector.current_running_model_name
     m = detector._memory
     m["count"] = m.get("count", 0) + 1
     m.setdefault("hist", []).append(float(inc))
     shape = detector.geometry.shape
-    trapped = m.get("trapped")
-    if trapped is None:
-        trapped = np.zeros(shape, dtype=float)
-    trapped = trapped + float(inc)           # new array: never aliases the caller's array
-    m["trapped"] = trapped
+    if m.get("trapped") is None:
+        m["trapped"] = np.zeros(shape, dtype=float)
+    m["trapped"] += float(inc)                       # in place, like a real persistence model may do
+    pers = 0.0
+    if detector.has_persistence():
+        arr = detector.persistence.trapped_charge_array
+        arr += float(inc) * 0.5                      # in place
+        pers = float(arr.sum())
     if lst is not None:
         lst.append(float(inc) + len(lst))
     if dct is not None:
         dct["n"] = dct.get("n", 0) + 1
         dct.setdefault("log", []).append(float(inc))
-    val = (float(inc) * m["count"] + 100.0 * (len(lst) if lst is not None else 0)
-           + 10000.0 * (dct["n"] if dct is not None else 0) + 0.001 * float(np.sum(m["hist"])))
+    val = (float(inc) * m["count"] + 100.0 * (float(np.sum(lst)) if lst is not None else 0.0)
+           + 10000.0 * (dct["n"] + len(dct["log"]) if dct is not None else 0) + 0.001 * float(np.sum(m["hist"])))
     base = detector.pixel.array if detector.pixel._array is not None else np.zeros(shape)
-    detector.pixel.array = np.asarray(base, dtype=float) + val + trapped * 1e-6
-    detector.signal.array = np.full(shape, float(len(m["hist"])) + 0.5 * float(trapped.flat[0]))
+    detector.pixel.array = np.asarray(base, dtype=float) + val + m["trapped"] * 1e-3
+    detector.signal.array = np.full(shape, float(len(m["hist"])) + 0.5 * float(m["trapped"].flat[0]) + pers * 1e-3)
     probes.TRACE.append({"name": name, "seen": {"inc": float(inc), "count": int(m["count"]),
                                                 "lst": None if lst is None else len(lst),
                                                 "dct": None if dct is None else int(dct["n"])},
